@@ -185,6 +185,91 @@ func (g *gen) w1rels(name string) []RelDef {
 	return append(rds, rd)
 }
 
+// condMix: the userset / TTU target relation is a set operation with a CONDITIONED direct leaf, and
+// the user's tuples on it mix "condition met", "not met" and "cannot be evaluated" across groups
+// (tuple-level contexts; the request context is usually absent).
+func GenerateC02CondMix(r *rec.Rand) *Scenario {
+	s := &Scenario{Conds: []string{"c1"}, Shape: "c02-w2-cond-mix"}
+	var mrw *Rewrite
+	switch r.Intn(4) {
+	case 0, 1:
+		mrw = Union(This(), Comp("owner"))
+	case 2:
+		mrw = Inter(This(), Comp("owner"))
+	default:
+		mrw = Diff(This(), Comp("owner"))
+	}
+	group := TypeDef{Name: "group", Rels: []RelDef{
+		{Name: "owner", RW: This(), Restr: []Restr{RObj("user")}},
+		{Name: "member", RW: mrw, Restr: []Restr{RObj("user").With("c1")}}}}
+	ttu := r.Chance(1, 3)
+	if ttu {
+		s.Types = []TypeDef{{Name: "user"}, group,
+			{Name: "doc", Rels: []RelDef{
+				{Name: "parent", RW: This(), Restr: []Restr{RObj("group")}},
+				{Name: "viewer", RW: TTU("parent", "member")},
+				{Name: "blocked", RW: This(), Restr: []Restr{RObj("user")}},
+				{Name: "allowed", RW: Diff(Comp("viewer"), Comp("blocked"))}}}}
+	} else {
+		s.Types = []TypeDef{{Name: "user"}, group,
+			{Name: "doc", Rels: []RelDef{
+				{Name: "viewer", RW: This(), Restr: []Restr{RSet("group", "member")}},
+				{Name: "blocked", RW: This(), Restr: []Restr{RObj("user")}},
+				{Name: "allowed", RW: Diff(Comp("viewer"), Comp("blocked"))}}}}
+	}
+	groups := []string{"g1", "g2", "g3", "g4"}
+	rec.Shuffle(r, groups)
+	// per user: a profile of outcomes over the groups; E = no own context, F = x:-1, T = x:1
+	profiles := [][]string{{"E", "F"}, {"F", "E"}, {"E", "F", "F"}, {"E"}, {"F"}, {"E", "T"}, {"T", "F"}, {"E", "E", "F"}, {"F", "E", "T"}}
+	for ui, u := range []string{"user:a", "user:b"} {
+		prof := profiles[r.Intn(len(profiles))]
+		if ui == 0 && r.Chance(2, 3) {
+			prof = profiles[r.Intn(3)] // E and F, no T
+		}
+		for gi, o := range prof {
+			t := Tuple{Obj: "group:" + groups[gi], Rel: "member", User: u, Cond: "c1"}
+			switch o {
+			case "F":
+				t.Ctx = map[string]any{"x": -1}
+			case "T":
+				t.Ctx = map[string]any{"x": 1}
+			}
+			s.Tuples = append(s.Tuples, t)
+		}
+		if r.Chance(1, 3) {
+			s.Tuples = append(s.Tuples, Tuple{Obj: "group:" + groups[r.Intn(4)], Rel: "owner", User: u})
+		}
+	}
+	for _, d := range []string{"1", "2"} {
+		n := r.Range(1, 2)
+		for i := 0; i < n; i++ {
+			gname := groups[r.Intn(3)]
+			if ttu {
+				s.Tuples = append(s.Tuples, Tuple{Obj: "doc:" + d, Rel: "parent", User: "group:" + gname})
+			} else {
+				s.Tuples = append(s.Tuples, Tuple{Obj: "doc:" + d, Rel: "viewer", User: "group:" + gname + "#member"})
+			}
+		}
+	}
+	if r.Chance(1, 3) {
+		s.Tuples = append(s.Tuples, Tuple{Obj: "doc:1", Rel: "blocked", User: "user:b"})
+	}
+	seen := map[string]bool{}
+	var ts []Tuple
+	for _, t := range s.Tuples {
+		if !seen[t.Key()] {
+			seen[t.Key()] = true
+			ts = append(ts, t)
+		}
+	}
+	s.Tuples = ts
+	rec.Shuffle(r, s.Tuples)
+	if r.Chance(1, 5) {
+		s.ReqCtx = map[string]any{"x": 1}
+	}
+	return s
+}
+
 func (g *gen) c02template() {
 	r := g.r
 	user := TypeDef{Name: "user"}
@@ -508,7 +593,7 @@ var _ planner.Manager = (*SeededPlanner)(nil)
 // parent folders); the user is a direct member of one of them (often not the first), of a deeper
 // one, or of none.  Returns the scenario and the request (object, relation) on the top object.
 
-func GenerateC02FirstLevel(r *rec.Rand) (*Scenario, string, string) {
+func GenerateC02FirstLevel(r *rec.Rand) (*Scenario, string, string, []string) {
 	s := &Scenario{}
 	k := r.Range(2, 4)
 	names := []string{"p1", "p2", "p3", "p4", "q1", "q2"}
@@ -528,11 +613,56 @@ func GenerateC02FirstLevel(r *rec.Rand) (*Scenario, string, string) {
 		}
 		return Tuple{Obj: "folder:" + o, Rel: "viewer", User: u}
 	}
-	if r.Chance(1, 2) {
+	subjects := []string{"user:a"}
+	flavour := r.Intn(5)
+	if flavour < 2 {
 		typ, rel = "group", "member"
 		s.Shape = "c02-first-level-userset"
+		subjects = append(subjects, "group:"+parents[k-1]+"#member")
 		s.Types = []TypeDef{{Name: "user"},
 			{Name: "group", Rels: []RelDef{{Name: "member", RW: This(), Restr: []Restr{RObj("user"), RSet("group", "member")}}}}}
+	} else if flavour == 4 {
+		// recursive TTU whose relation is also assignable to plain groups and to team#member:
+		// recursive-eligible for subjects of type group; asked with a USERSET subject of that
+		// type (group:eng#member), related only through a nested userset up the parent chain
+		typ, rel = "folder", "viewer"
+		s.Shape = "c02-first-level-ttu-userset-subject"
+		s.Types = []TypeDef{{Name: "user"},
+			{Name: "group", Rels: []RelDef{{Name: "member", RW: This(), Restr: []Restr{RObj("user")}}}},
+			{Name: "team", Rels: []RelDef{{Name: "member", RW: This(), Restr: []Restr{RObj("user"), RSet("group", "member")}}}},
+			{Name: "folder", Rels: []RelDef{
+				{Name: "parent", RW: This(), Restr: []Restr{RObj("folder")}},
+				{Name: "viewer", RW: Union(This(), TTU("parent", "viewer")), Restr: []Restr{RObj("user"), RObj("group"), RSet("team", "member")}}}}}
+		subjects = []string{"group:eng#member", "group:eng", "user:a", "team:t#member"}
+		for _, p := range parents {
+			s.Tuples = append(s.Tuples, edge("top", p))
+		}
+		for i, d := range deeper {
+			if r.Chance(2, 3) {
+				s.Tuples = append(s.Tuples, edge(parents[i%k], d))
+			}
+		}
+		holder := parents[r.Intn(k)]
+		if r.Chance(1, 2) {
+			holder = deeper[0]
+			s.Tuples = append(s.Tuples, edge(parents[k-1], deeper[0]))
+		}
+		s.Tuples = append(s.Tuples,
+			Tuple{Obj: "folder:" + holder, Rel: "viewer", User: "team:t#member"},
+			Tuple{Obj: "group:eng", Rel: "member", User: "user:a"})
+		if r.Chance(4, 5) {
+			s.Tuples = append(s.Tuples, Tuple{Obj: "team:t", Rel: "member", User: "group:eng#member"})
+		}
+		if r.Chance(1, 4) {
+			s.Tuples = append(s.Tuples, Tuple{Obj: "folder:" + parents[0], Rel: "viewer", User: "group:eng"})
+		}
+		if r.Chance(1, 4) {
+			s.Tuples = append(s.Tuples, Tuple{Obj: "folder:" + parents[0], Rel: "viewer", User: "group:other"})
+		}
+		if r.Chance(1, 2) {
+			rec.Shuffle(r, s.Tuples)
+		}
+		return s, "folder:top", "viewer", subjects
 	} else {
 		typ, rel = "folder", "viewer"
 		s.Shape = "c02-first-level-ttu"
@@ -570,5 +700,5 @@ func GenerateC02FirstLevel(r *rec.Rand) (*Scenario, string, string) {
 	if r.Chance(1, 2) {
 		rec.Shuffle(r, s.Tuples)
 	}
-	return s, typ + ":top", rel
+	return s, typ + ":top", rel, subjects
 }
